@@ -1,3 +1,4 @@
+import Mdsort.Proofs.GenBridge
 import Mdsort.Model.Flags
 import Mdsort.Model.Scripts
 import Mdsort.Proofs.LimitsText
@@ -42,9 +43,11 @@ by `C18_L0_truncation_never_used` (index level, where the truncation IS in the b
 `C18_defaultconf_exact` / `_needs_ge` (`snprintfInto` does truncate), not by those statements.  The theorems with content
 are the ones about what the PROGRAM does after a `none`: `C18_unit_refines`, `C18_run_units`, `C18_refines_unbounded`,
 `C18_no_truncated_path`, `C18_config_time`, `C18_interpolation_*`, `C18_sane_needed`.
-(2) `PATH_MAX = 4096`, `NAME_MAX + 1 = 256`, the TZ buffer 256 are constants written in `Model/Eval.lean` / `Model/Start.lean`
-(and again in tools/props/c18.py); they are not regenerated from <limits.h> or from the declarations of the buffers in the
-C sources, so `C18_limits` is `decide` on the model's own constants.
+(2) (package p15) `PATH_MAX`, `NAME_MAX + 1`, the TZ and host name buffers, the buffers of `defaultconf` and `expandtilde` are no
+longer constants written in the model: `tools/gen_tables.py` reads the two limits from the platform headers as the tree's
+translation units see them (`cc -E -dM`) and the declared size of every path / name buffer from the sources, and the model
+is defined with `Gen.*`; `C18_limits` is `decide` on the regenerated table.  (tools/props/c18.py still derives its window of
+lengths from its own probe of the limits.)
 (3) In `C18_no_truncated_path` the segment `rest` (everything after the releases of the first unit that overflowed) is not
 constrained by that statement beyond "the run ends with the error flag and a non-zero status"; for it the claim "no
 truncated path" rests on `C18_run_units` + `C18_unit_no_truncated_path` (every later unit, from whatever state it starts
@@ -77,8 +80,35 @@ theorem C18_strlcpy_exact (n : Nat) (s : Bytes) :
   · have : s.length ≥ n := by omega
     simp [h, this]
 
-/-- The platform's limits as the model has them (hand-written constants of `Model/Eval.lean`; see audit note 2). -/
-theorem C18_limits : NAME_MAX1 = 256 ∧ PATH_MAX = 4096 := by decide
+/-- The limits of the model ARE the limits the sources are compiled against, and the buffers are declared with them.
+`Gen.pathMax` / `Gen.nameMax` are `PATH_MAX` / `NAME_MAX` as `cc -E -dM` reports them for a translation unit that includes
+config.h and extern.h of the tree under check (same compiler, include path and feature-test macros as its build);
+`Gen.charBuffers` lists every `char x[N]` declaration of the sources whose size mentions one of the two, plus `ev_hostname`
+and `t_buf` (`tools/gen_tables.py`, regenerated on every run; a buffer the list needs and does not find stops the run).
+* the model's two sizes are those values (on this platform 4096 and 255 + 1);
+* the buffers that carry a path - environment (`ev_home`, `ev_tmpdir`), match (`mh_path`, `mh_maildir`), maildir
+  (`md_root`, `md_path`), message (`me_path`, two locals of message.c), the static buffer of `defaultconf` - are ALL
+  declared `[PATH_MAX]`, those that carry a file name or a `new`/`cur` component `[NAME_MAX + 1]`, and nothing else is in
+  the list but the host name and zone buffers with their literal sizes: one size per kind is what `Model.Limits` assumes;
+* `stdLimits`, the TZ buffer and the buffer of `expandtilde` are the generated values.
+Declaring one of these buffers with another size, adding one, or compiling against other limits makes this false. -/
+theorem C18_limits :
+    PATH_MAX = Gen.pathMax ∧ NAME_MAX1 = Gen.nameMax + 1 ∧ Gen.pathMax = 4096 ∧ Gen.nameMax = 255 ∧
+    (Gen.charBuffers.filter (fun b => b.2.2.1 == "PATH_MAX")).map (fun b => (b.1, b.2.1, b.2.2.2)) =
+      [("extern.h", "ev_home", Gen.pathMax), ("extern.h", "ev_tmpdir", Gen.pathMax), ("extern.h", "mh_path", Gen.pathMax),
+       ("extern.h", "mh_maildir", Gen.pathMax), ("maildir.c", "md_root", Gen.pathMax), ("maildir.c", "md_path", Gen.pathMax),
+       ("message.c", "me_path", Gen.pathMax), ("message.c", "path", Gen.pathMax), ("message.c", "path", Gen.pathMax),
+       ("mdsort.c", "path", Gen.pathMax)] ∧
+    (Gen.charBuffers.filter (fun b => b.2.2.1 == "NAME_MAX + 1")).map (fun b => (b.1, b.2.1, b.2.2.2)) =
+      [("extern.h", "mh_subdir", Gen.nameMax + 1), ("maildir.c", "dstname", Gen.nameMax + 1), ("maildir.c", "name", Gen.nameMax + 1),
+       ("maildir.c", "name", Gen.nameMax + 1), ("maildir.c", "buf", Gen.nameMax + 1), ("message.c", "me_name", Gen.nameMax + 1),
+       ("message.c", "name", Gen.nameMax + 1), ("expr.c", "buf", Gen.nameMax + 1), ("expr.c", "buf", Gen.nameMax + 1)] ∧
+    Gen.charBuffers.filter (fun b => b.2.2.1 != "PATH_MAX" && b.2.2.1 != "NAME_MAX + 1") =
+      [("extern.h", "ev_hostname", "256", Gen.evHostnameSize), ("extern.h", "t_buf", "256", Gen.tzBufSize)] ∧
+    stdLimits = { pathMax := .fin Gen.pathMax, nameMax1 := .fin (Gen.nameMax + 1), hostMax := .fin Gen.evHostnameSize } ∧
+    Gen.evHomeSize = Gen.pathMax ∧ Gen.evTmpdirSize = Gen.pathMax ∧ Gen.defaultconfSize = Gen.pathMax ∧
+    Gen.expandtildeSize = Gen.pathMax ∧ TZ_BUF = Gen.tzBufSize := by
+  refine ⟨rfl, rfl, by decide, by decide, by decide, by decide, by decide, rfl, by decide, by decide, by decide, by decide, rfl⟩
 
 /-! ## the limits as parameters -/
 
@@ -649,9 +679,9 @@ theorem C18_defaultconf_limit (home : Bytes) :
     (defaultconf PATH_MAX home).isSome = decide (home.length ≤ 4082) := by
   rw [(C18_defaultconf_exact PATH_MAX home).1]
   by_cases h : home.length ≤ 4082
-  · have : home.length + 13 < PATH_MAX := by unfold PATH_MAX; omega
+  · have : home.length + 13 < PATH_MAX := by unfold PATH_MAX; rw [Gen_pathMax_eq]; omega
     simp [h, this]
-  · have : ¬ home.length + 13 < PATH_MAX := by unfold PATH_MAX; omega
+  · have : ¬ home.length + 13 < PATH_MAX := by unfold PATH_MAX; rw [Gen_pathMax_eq]; omega
     simp [h, this]
 
 /-- Why the test is `n >= siz`: with `n > siz` (one too lenient) a home directory for which `home/.mdsort.conf` has
@@ -695,7 +725,7 @@ theorem C18_readenv_exact (raw : RawEnv) (h t : Bytes) (hh : raw.home = some h) 
   have hs : homeSource raw = some h := by unfold homeSource; rw [hh]; simp [h1]
   have ts : tmpSource raw = t := by unfold tmpSource; rw [ht]; simp [t1]
   unfold readenv
-  rw [hs, ts]
+  rw [hs, ts, Gen_evHomeSize_eq, Gen_evTmpdirSize_eq]
   unfold strlcpyFits
   by_cases c1 : h.length ≥ PATH_MAX
   · simp only [c1, if_true]
@@ -759,19 +789,23 @@ theorem C18_readenv_tz_exact (raw : RawEnv) :
       · split
         · exact ⟨_, rfl⟩
         · rw [hz]
-          have : strlcpyFits TZ_BUF z = none := by unfold strlcpyFits; simp [hlen]
+          have : strlcpyFits TZ_BUF z = none := by
+            unfold strlcpyFits
+            exact if_pos hlen
           simp only [this]
           exact ⟨_, rfl⟩
   · intro z hm hz hlen hh hhl htl
     unfold readenv
-    rw [hh]
+    rw [hh, Model.Gen_evHomeSize_eq, Model.Gen_evTmpdirSize_eq]
     have h1 : strlcpyFits PATH_MAX hm = some hm := by unfold strlcpyFits; simp [Nat.not_le.mpr hhl]
     have h2 : strlcpyFits PATH_MAX (tmpSource raw) = some (tmpSource raw) := by unfold strlcpyFits; simp [Nat.not_le.mpr htl]
-    have h3 : strlcpyFits TZ_BUF z = some z := by unfold strlcpyFits; simp [Nat.not_le.mpr hlen]
+    have h3 : strlcpyFits TZ_BUF z = some z := by
+      unfold strlcpyFits
+      exact if_neg (Nat.not_le.mpr hlen)
     simp only [h1, h2, hz, h3]
   · intro hm hz hh hhl htl
     unfold readenv
-    rw [hh]
+    rw [hh, Model.Gen_evHomeSize_eq, Model.Gen_evTmpdirSize_eq]
     have h1 : strlcpyFits PATH_MAX hm = some hm := by unfold strlcpyFits; simp [Nat.not_le.mpr hhl]
     have h2 : strlcpyFits PATH_MAX (tmpSource raw) = some (tmpSource raw) := by unfold strlcpyFits; simp [Nat.not_le.mpr htl]
     simp only [h1, h2, hz]
@@ -803,6 +837,7 @@ example : (tzState none, tzState (some []), tzState (some [85])) = (0, 1, 2) := 
 theorem readenv_ok {raw : RawEnv} {hm tm : Bytes} {z : Option Bytes} (hr : readenv raw = .ok (hm, tm, z)) :
     homeSource raw = some hm ∧ hm.length < PATH_MAX ∧ tm = tmpSource raw ∧ tm.length < PATH_MAX := by
   unfold readenv at hr
+  rw [Gen_evHomeSize_eq, Gen_evTmpdirSize_eq] at hr
   split at hr
   · cases hr
   · rename_i p hp
@@ -833,6 +868,7 @@ theorem C18_start_never_truncates (raw : RawEnv) (fOpt : Option Bytes) (home tmp
     homeSource raw = some home ∧ home.length < PATH_MAX ∧ tmpdir = tmpSource raw ∧ tmpdir.length < PATH_MAX ∧
     (fOpt = some confpath ∨ (fOpt = none ∧ confpath = home ++ confSuffix ∧ confpath.length < PATH_MAX)) := by
   unfold startPaths at h
+  rw [Gen_defaultconfSize_eq] at h
   split at h
   · cases h
   · rename_i hm tm z hr
